@@ -2,6 +2,7 @@
 import ast
 
 from ..rules_commit import check_no_rollback
+from ..rules_own import own_rules
 
 from ..cfg import cfg_of, membership
 from ..model import norm, parent, walk_own, walk_with_nested_exprs
@@ -448,11 +449,14 @@ def check(prog, rep):
     caches_follow(prog, rep)
     container_eviction(prog, rep)
     not_found(prog, rep)
+    # what create/update stored is what describe/list report: the store keeps its own copy of the metadata
+    own_rules(prog, rep, methods=["create_bucket", "update_bucket", "get_metadata", "buckets"])
     # a failed (or any) bucket operation must not roll back the shared open transaction
     check_no_rollback(prog, rep)
 
 
 VARIANTS = [
+    ("B memory create_bucket keeps the caller's nested data", ME, '            "data": copy.deepcopy(data) if data else {},', '            "data": dict(data or {}),', "OWN-IN"),
     ("B failed delete rolls the open transaction back", SQ, "        self.commit()\n        if cursor.rowcount != 1:\n            raise ValueError(\"Bucket did not exist, could not delete\")", "        if cursor.rowcount != 1:\n            self.conn.rollback()\n            raise ValueError(\"Bucket did not exist, could not delete\")\n        self.commit()", "NO-ROLLBACK"),
     ("B handle cached before the existence check", DS, "            if bucket_id in self.buckets():\n                bucket = Bucket(self, bucket_id)\n                self.bucket_instances[bucket_id] = bucket\n            else:", "            self.bucket_instances[bucket_id] = Bucket(self, bucket_id)\n            if bucket_id not in self.buckets():", "CACHES-ALL"),
     ("B peewee metadata cache never evicted on delete", PW, "            bucket = BucketModel.get(\n                BucketModel.key == self.bucket_keys[bucket_id]\n            ).json()\n            return bucket", "            key = self.bucket_keys[bucket_id]\n            if not hasattr(self, \"_md\"):\n                self._md = {}\n            if key not in self._md:\n                self._md[key] = BucketModel.get(BucketModel.key == key).json()\n            return dict(self._md[key])", "CACHES-ALL"),
